@@ -54,6 +54,9 @@ func filesOf(p *gen.Prog) map[string]string {
 		out["src/"+p.Pkg+"/"+f.Name] = p.RenderFile(f, gen.Mode{})
 		out["ref/"+p.Pkg+"/"+f.Name] = p.RenderFile(f, gen.Mode{Ref: true})
 	}
+	if p.LoadTest {
+		out["src/"+p.Pkg+"/"+loadTestFile] = loadTestSource(p.Pkg)
+	}
 	reg := p.RenderReg()
 	out["src/"+p.Pkg+"/reg.go"] = reg
 	out["ref/"+p.Pkg+"/reg.go"] = reg
